@@ -15,6 +15,19 @@ from .cfg import Builder
 
 VERIF = pathlib.Path(__file__).resolve().parent.parent
 
+_print = print
+
+
+def print(*a, **k):       # noqa: A001  -- a closed stdout must not change the exit status
+    try:
+        _print(*a, **k)
+        sys.stdout.flush()
+    except BrokenPipeError:
+        try:
+            sys.stdout = open(os.devnull, 'w')
+        except Exception:
+            pass
+
 
 def norm_text(node_or_str):
     """normalised statement text used in finding keys (never line numbers)"""
